@@ -66,8 +66,52 @@ def model(T0: float, K: float, arrivals: list[float], H: float) -> tuple[list[fl
             tick = tick + K
 
 
+def stalled_loop(ctx: Ctx) -> None:
+    """The client process is stopped for a while (longer than K, across one or more ticks) while a peer is silent: ticks run late, but the peer has
+    been silent all the same - it is declared dead when 4.5K have passed since the first unanswered ping, or as soon as the process runs again if
+    that moment fell into the stop; never later, and a live peer is not dropped because of the stop."""
+    res = ctx.res
+    idx = 0
+    for K in (0.8, 5.0, 20):
+        for framing in ("plain", "noise"):
+            for a, b in ((2.9, 4.2), (1.5, 3.1), (0.4, 1.6), (4.0, 6.3), (2.2, 2.9)):
+                for live in (None, 40.0):
+                    idx += 1
+                    if not ctx.mine(5000 + idx):
+                        continue
+                    o = run_case(K, framing, [], 12, live if live is None else live * K, suspend=(a * K, b * K))
+                    res.evaluations += 1
+                    res.count("workload/stalled-loop")
+                    res.sig("stalled-loop", K, framing, a, b, live)
+                    case = {"K": K, "framing": framing, "offsets": [], "process_stopped": [a, b], "live_peer": live is not None}
+                    if o.get("error") or o["harness_errors"]:
+                        res.inconclusive.append(f"stalled loop: {o.get('error') or o['harness_errors'][0][-300:]}")
+                        continue
+                    T0 = o["T0"]
+                    rel = None if o["close_t"] is None else (o["close_t"] - T0) / K
+                    if live is not None:
+                        if o["closed"]:
+                            res.violation("C10/closed-while-alive", f"K={K}: peer answers every ping; process stopped {a}K..{b}K; session closed at {rel:.3f}K "
+                                          f"({o['fatal']})", case)
+                        continue
+                    # silent from the start: first ping at the first tick that runs (1K, or the end of the stop if the stop covers 1K)
+                    first_ping = b if a < 1.0 < b else 1.0
+                    due = first_ping + 4.5
+                    due = b if a < due < b else due
+                    if not o["closed"]:
+                        res.violation("C10/dead-peer-not-detected", f"K={K}: peer silent, process stopped {a}K..{b}K: still connected at 12K "
+                                      f"(pings at {[round((t - T0) / K, 2) for t in o['pings']]}K)", case)
+                    elif rel is not None and rel > due + 0.01:
+                        res.violation("C10/closed-late", f"K={K}: peer silent, process stopped {a}K..{b}K: closed at {rel:.3f}K, due at {due:.3f}K", case)
+                    elif rel is not None and rel < 5.5 - 0.01:
+                        res.violation("C10/closed-early", f"K={K}: peer silent, process stopped {a}K..{b}K: closed at {rel:.3f}K", case)
+                    elif o["fatal"] is None or o["fatal"][1] != "PingFailedAPIError":
+                        res.violation("C10/wrong-close-cause", f"closed with {o['fatal']}", case)
+
+
 def run_case(K: float, framing: str, offsets: list[tuple[float, str]], horizon_k: float, live_until: float | None = None,
-             client_sends: list[float] | None = None, backpressure: tuple[float, int] | None = None) -> dict[str, Any]:
+             client_sends: list[float] | None = None, backpressure: tuple[float, int] | None = None,
+             suspend: tuple[float, float] | None = None) -> dict[str, Any]:
     """offsets: (seconds after T0, message kind). live_until: device answers pings itself until T0+live_until (then silent)."""
     with Sim() as sim:
         # a live device answers pings itself, K/16 after receiving them (so a pong never coincides with the tick that caused it)
@@ -121,6 +165,9 @@ def run_case(K: float, framing: str, offsets: list[tuple[float, str]], horizon_k
                 except Exception:  # noqa: BLE001
                     pass
             sim.at(T0 + backpressure[0], stall)
+        if suspend is not None:
+            # the client process does not run between these two instants (a blocking call in the application, SIGSTOP, a VM pause)
+            sim.suspend_process(T0 + suspend[0], T0 + suspend[1])
         H = T0 + horizon_k * K
         sim.run(max_time=H)
         v = sim.conns[0]
@@ -132,8 +179,13 @@ def run_case(K: float, framing: str, offsets: list[tuple[float, str]], horizon_k
         pongs_from_device = [s["t"] + lat for s in conn.sent if s["name"] == "PingResponse"]
         arrivals_seen = [s["t"] for s in conn.sent if s["t"] > T0 - 1e-9 and s["name"] != "HelloResponse"]
         first_fatal = v.fatals[0] if v.fatals else None
+        # judged up to a moment just BEFORE the end of the run: a tick that falls exactly on the horizon is inside or outside the run depending on
+        # float rounding of T0 + n*K (it differs with where on the clock the scenario started) - harness arithmetic, not library behaviour
+        Hj = H - K / 1000.0
+        pings = [p for p in pings if p <= Hj]
+        closed_in = v.closed_seq is not None and v.closed_t is not None and v.closed_t <= Hj
         return {
-            "T0": T0, "H": H, "pings": pings, "close_t": v.closed_t, "closed": v.closed_seq is not None,
+            "T0": T0, "H": Hj, "pings": pings, "close_t": v.closed_t if closed_in else None, "closed": closed_in,
             "fatal": None if first_fatal is None else (first_fatal[1], type(first_fatal[2]).__name__),
             "on_stop": [(x[1], x[2]) for x in v.on_stop],
             "device_sent_times": sorted(t for t in ([T0 + o for o, kd in offsets if not kd.startswith("PARTIAL")] + (pongs_from_device if live_until is not None else []))),
@@ -218,6 +270,7 @@ def shard(ctx: Ctx) -> None:
     from vf.sim import device as _device
 
     _device.AUTO_ROTATE = True   # chunking of the device's stream rotates: as written / replies coalesced / cut into 1..8-byte pieces
+    stalled_loop(ctx)
     rng = ctx.rng
     idx = 0
     from fractions import Fraction
